@@ -486,14 +486,14 @@ let lifecycle_case (toks : string list) : string =
       let f = nat_of_int fd in
       if mode = "T" then (match b with
         | "c" -> [ M.EAccept f; M.EEof f ]
-        | "d" | "f" | "h" -> [ M.EAccept f; M.EData f; M.EEof f ]
+        | "d" | "f" | "h" | "K" | "n" | "u" | "v" -> [ M.EAccept f; M.EData f; M.EEof f ]
         | "r" -> [ M.EAccept f; M.EData f; M.EErr0 f ]
         | "R" -> [ M.EAccept f; M.EErr0 f ]
         | "p" -> [ M.EAccept f; M.EData f; M.EWriteFail f; M.EErr0 f ]
         | _ -> [])
       else (match b with
         | "c" -> [ M.EAccept f; M.EEof f ]
-        | "f" | "k" | "h" | "z" | "s" | "S" | "t" -> [ M.EAccept f; M.EData f; M.EEof f ]
+        | "f" | "k" | "h" | "z" | "s" | "S" | "t" | "L" -> [ M.EAccept f; M.EData f; M.EEof f ]
         | "A" -> [ M.EAccept f; M.EData f; M.EWriteFail f; M.EErr0 f ]
         | "d" | "b" -> [ M.EAccept f; M.EData f; M.EEof f ]
         | "r" -> [ M.EAccept f; M.EData f; M.EErr0 f ]
@@ -501,7 +501,7 @@ let lifecycle_case (toks : string list) : string =
         | "j" | "m" -> [ M.EAccept f; M.EData f; M.EIdle f ]
         | "w" -> [ M.EAccept f; M.EData f; M.EWriteFail f; M.EErr0 f ]   (* the 408 never gets written: no idle close *)
         | _ -> []) in
-    let request_seen b = List.mem b [ "f"; "k"; "h"; "r"; "m"; "w"; "z"; "s"; "S"; "t"; "A" ] in
+    let request_seen b = List.mem b [ "f"; "k"; "h"; "r"; "m"; "w"; "z"; "s"; "S"; "t"; "A"; "L" ] in
     (* interleave the connections of one round event by event *)
     let rec interleave (ls : M.ev0 list list) : M.ev0 list =
       let heads = List.filter_map (function [] -> None | x :: _ -> Some x) ls in
@@ -515,12 +515,28 @@ let lifecycle_case (toks : string list) : string =
     let st = M.lrun evs in
     (* the write queues: behaviours that leave an answer unsent when the connection ends *)
     let unsent b = if mode = "T" then b = "p" else List.mem b [ "z"; "w"; "s"; "A" ] in
-    let answered b = if mode = "T" then List.mem b [ "d"; "f"; "h"; "r" ] else List.mem b [ "f"; "k"; "h"; "r"; "m"; "S"; "t"; "i"; "j" ] in
+    let answered b = if mode = "T" then List.mem b [ "d"; "f"; "h"; "r"; "n" ] else List.mem b [ "f"; "k"; "h"; "r"; "m"; "S"; "t"; "i"; "j" ] in
     let qconn fd b =
       let f = nat_of_int fd in
       [ M.QAccept f ] @ (if unsent b then [ M.QQueue f ] else if answered b then [ M.QQueue f; M.QFlush f ] else []) @ [ M.QClose f ] in
-    let qevs = List.concat (List.init rounds (fun _ ->
-        List.concat (List.mapi (fun i b -> qconn (i + 10) b) bs) @ List.concat (List.mapi (fun i b -> qconn (i + 10) b) probes))) in
+    (* 'K' (raw handler): the handler keeps the peer and sends to it when the connection is gone and the fresh connection
+       of the round holds its number: a write for the PREVIOUS generation of the number ([QLate fd 0] is a placeholder,
+       the generation is filled in below).  'L' (Http handler answering late): the ResponseWriter finds its peer gone,
+       nothing is written. *)
+    let qprobe i fd =
+      let f = nat_of_int fd in
+      if mode = "T" && List.nth bs i = "K" then [ M.QAccept f; M.QQueue f; M.QFlush f; M.QLate (f, nat_of_int 0); M.QFlush f; M.QClose f ]
+      else qconn fd "f" in
+    let qevs0 = List.concat (List.init rounds (fun _ ->
+        List.concat (List.mapi (fun i b -> qconn (i + 10) b) bs) @ List.concat (List.mapi (fun i _ -> qprobe i (i + 10)) probes))) in
+    let qevs =
+      let count = ref 0 and cur = Hashtbl.create 16 and prev = Hashtbl.create 16 in
+      List.map (fun e -> match e with
+          | M.QAccept f -> incr count;
+            (match Hashtbl.find_opt cur (int_of_nat f) with Some g -> Hashtbl.replace prev (int_of_nat f) g | None -> ());
+            Hashtbl.replace cur (int_of_nat f) !count; e
+          | M.QLate (f, _) -> M.QLate (f, nat_of_int (try Hashtbl.find prev (int_of_nat f) with Not_found -> 0))
+          | _ -> e) qevs0 in
     let stale = int_of_nat (M.q_stale (M.qrun true qevs)) in
     (* files queued by Http::serveFile: header then file; 's' abandons the download, 'S' completes it *)
     let fconn fd b =
@@ -680,6 +696,16 @@ let dispatch_case (toks : string list) : string =
     let ended = match (M.srun loop_history).M.ph with M.Exited -> 1 | M.Waiting -> 0 in
     if int_of_string shut >= 0 then Printf.sprintf "M ok=* bad=0 short=0 shutdown=%d threads_left=%d" ended (1 - ended)
     else Printf.sprintf "M ok=%d bad=0 short=0 shutdown=%d threads_left=%d" !ok ended (1 - ended)
+  | [ "I"; workers ] ->
+    (* shutdown() right after serveThreaded(): for each worker loop the store (and the notify) may come before the thread
+       enters its loop, between its entry and its first poll, or later; every placement must end the loop *)
+    let w = int_of_string workers in
+    let placements = [ ([ M.SStore; M.SNotify ], [ M.SPollReturn; M.SOther; M.SPollReturn ]);
+                       ([ M.SStore ], [ M.SNotify; M.SPollReturn; M.SOther; M.SPollReturn ]);
+                       ([], [ M.SStore; M.SNotify; M.SPollReturn; M.SOther; M.SPollReturn ]);
+                       ([ M.SOther ], [ M.SOther; M.SStore; M.SOther; M.SNotify; M.SPollReturn ]) ] in
+    let alive = List.length (List.filter (fun (b, a) -> match (M.srun_from false b a).M.ph with M.Exited -> false | M.Waiting -> true) placements) in
+    Printf.sprintf "I shutdown=1 threads_left=%d dtor=1" (if alive = 0 then 0 else w)
   | _ -> "BADCASE"
 
 (* ---------------- server time-outs (C14) ---------------- *)
